@@ -118,8 +118,14 @@ fn check_curve(e: &Elem, verts: &[P], tol: f64, scale: f64) -> Result<f64, Strin
     for (i, v) in verts.iter().enumerate() {
         let found = (seg..n).find(|s| on_curve_at(*v, *s));
         match found {
-            Some(s) => {
-                seg = s;
+            Some(mut s) => {
+                // the first hit may be a few samples early (the vertex tolerance is wider than the sample
+                // spacing): walk down to the nearest sample, which stops at the first local minimum and so
+                // stays on the right branch of a curve that doubles back
+                while s + 1 < n && dist(*v, fine[s + 1]) < dist(*v, fine[s]) {
+                    s += 1;
+                }
+                seg = s.saturating_sub(1);
                 idx.push(s);
             }
             None => {
@@ -134,18 +140,26 @@ fn check_curve(e: &Elem, verts: &[P], tol: f64, scale: f64) -> Result<f64, Strin
     }
     let mut poly = vec![e.start()];
     poly.extend_from_slice(verts);
-    let limit = 8.0 * tol + 1e-4 * scale + 1e-4 + e.ctrl_len() / n as f64 / 2.0;
+    // the correspondence between chords and arcs found above is only as sharp as the vertex tolerance (a vertex
+    // may be attributed to a sample a few steps early), so a distance measured along it that is not clearly
+    // inside the bound is measured again without the restriction
+    let remeasure = 4.0 * tol + 1e-5 * scale;
     let full_to_poly = |q: P| (0..poly.len() - 1).fold(f64::INFINITY, |d, s| d.min(dist_point_seg(q, poly[s], poly[s + 1])));
+    // the chords around chord i (the samples at the ends of an arc belong to a neighbouring chord)
+    let near_poly = |q: P, i: usize| (i.saturating_sub(3)..(i + 2).min(poly.len() - 1)).fold(f64::INFINITY, |d, s| d.min(dist_point_seg(q, poly[s], poly[s + 1])));
     let full_to_curve = |q: P| (0..n).fold(f64::INFINITY, |d, s| d.min(dist_point_seg(q, fine[s], fine[s + 1])));
     let mut dev = 0.0f64;
     for i in 1..poly.len() {
         let (a, b) = (poly[i - 1], poly[i]);
-        let (lo, hi) = (idx[i - 1], (idx[i] + 1).min(n));
+        let (lo, hi) = (idx[i - 1].saturating_sub(1), (idx[i] + 1).min(n));
         // curve -> polyline: samples of this chord's arc against the chord
         for j in lo..=hi {
             let mut d = dist_point_seg(fine[j], a, b);
-            if d > limit {
-                d = full_to_poly(fine[j]);
+            if d > remeasure {
+                d = near_poly(fine[j], i);
+                if d > remeasure {
+                    d = full_to_poly(fine[j]);
+                }
             }
             dev = dev.max(d);
         }
@@ -157,7 +171,7 @@ fn check_curve(e: &Elem, verts: &[P], tol: f64, scale: f64) -> Result<f64, Strin
             for s in lo.saturating_sub(1)..hi {
                 d = d.min(dist_point_seg(q, fine[s], fine[s + 1]));
             }
-            if d > limit {
+            if d > remeasure {
                 d = full_to_curve(q);
             }
             dev = dev.max(d);
@@ -277,6 +291,7 @@ pub fn check(c: &Case) -> CheckResult {
     o.class_if(matches!(c.path.ops.first(), Some(POp::Q(..) | POp::C(..))), "curve-first");
     o.class_if(c.path.ops.iter().filter(|p| matches!(p, POp::M(..))).count() > 1, "multi-subpath");
     o.class_if(ncurves >= 2, "multi-curve");
+    o.class_if(ncurves >= 1 && flat.ops.len() > 300 * ncurves, "curve-with-more-than-256-segments");
     {
         // a MoveTo whose target is exactly the end point of the op before it (not the first op)
         let mut cur: Option<(f32, f32)> = None;
@@ -371,6 +386,10 @@ pub fn ops_strategy(coord: fn() -> BoxedStrategy<f32>, maxops: usize) -> BoxedSt
         .boxed()
 }
 
+fn coord4000() -> BoxedStrategy<f32> {
+    prop_oneof![4 => -4000.0f32..4000.0, 1 => (-40i32..=40).prop_map(|v| (v * 100) as f32), 1 => -2.0f32..2.0].boxed()
+}
+
 fn coord20() -> BoxedStrategy<f32> {
     prop_oneof![4 => -20.0f32..20.0, 2 => (-20i32..=20).prop_map(|v| v as f32), 1 => -2.0f32..2.0].boxed()
 }
@@ -380,7 +399,10 @@ fn strategy() -> BoxedStrategy<Case> {
     // reference sampling at <= tol/2 affordable)
     let big = (ops_strategy(coord200, 10), any::<bool>(), prop::sample::select(vec![0.1f32, 0.25, 1.0, 4.0]));
     let small = (ops_strategy(coord20, 10), any::<bool>(), prop::sample::select(vec![0.01f32, 0.05, 0.1, 0.25]));
-    prop_oneof![big, small].prop_map(|(ops, evenodd, tol)| Case { path: PathSpec { ops, evenodd }, tol }).boxed()
+    // few, large curves at tolerances small enough that one curve needs hundreds to thousands of segments
+    let fine200 = (ops_strategy(coord200, 3), any::<bool>(), prop::sample::select(vec![0.002f32, 0.0005, 0.0001]));
+    let fine4000 = (ops_strategy(coord4000, 3), any::<bool>(), prop::sample::select(vec![0.02f32, 0.005, 0.001]));
+    prop_oneof![12 => big, 12 => small, 1 => fine200, 1 => fine4000].prop_map(|(ops, evenodd, tol)| Case { path: PathSpec { ops, evenodd }, tol }).boxed()
 }
 
 // ---------------------------------------------------------------------------
@@ -462,10 +484,10 @@ fn use_strategy() -> BoxedStrategy<UseCase> {
 pub fn property(_ctx: &Ctx) -> Property {
     Property {
         id: "C16",
-        rule: "part ops: paths of 1-10 ops in any order (curve first, directly after Close, after MoveTo, consecutive closes), control points in +-200 with degenerate variants (coincident, collinear, control = end), tolerance in {0.01,0.05,0.1,0.25,1,4}; oracle = structural match of flatten() output against the input (MoveTo/LineTo/Close preserved in order; each curve replaced by >=1 LineTo ending exactly at its end point), every replacing vertex on the f64 curve *from its true starting point* (cursor after Close = subpath start) in parameter order, Hausdorff deviation <= 8 x tolerance, and deviation at tolerance/4 <= max(deviation, 8 x tolerance/4). part use: fill(path) vs fill(flatten(path,0.05)) identical farther than 1.5 px (+ pixel radius) from the f64 outline, contains_point agrees farther than 8 x tolerance from it. Non-trivial: >=1 curve; distinct by hash of the case.",
+        rule: "part ops: paths of 1-10 ops in any order (curve first, directly after Close, after MoveTo, consecutive closes), control points in +-200 with degenerate variants (coincident, collinear, control = end), tolerance in {0.01,0.05,0.1,0.25,1,4}, plus one case in thirteen with 1-3 ops of large curves (+-200 at tolerance 1e-4..2e-3, +-4000 at 1e-3..2e-2) that need hundreds to thousands of segments each; oracle = structural match of flatten() output against the input (MoveTo/LineTo/Close preserved in order; each curve replaced by >=1 LineTo ending exactly at its end point), every replacing vertex on the f64 curve *from its true starting point* (cursor after Close = subpath start) in parameter order, Hausdorff deviation <= 8 x tolerance, and deviation at tolerance/4 <= max(deviation, 8 x tolerance/4). part use: fill(path) vs fill(flatten(path,0.05)) identical farther than 1.5 px (+ pixel radius) from the f64 outline, contains_point agrees farther than 8 x tolerance from it. Non-trivial: >=1 curve; distinct by hash of the case.",
         assumptions: vec!["vertex-on-curve tolerance 1e-4*scale+1e-4 (observed 2e-6*scale)", "the statement does not say flatten keeps the winding rule, so it is not demanded"],
         parts: vec![part_outside_c07("ops", 24_000, 1_500_000, strategy, check), part("use", 6_000, 300_000, use_strategy, check_use)],
-        min_class_fraction: vec![("ops", "curve-after-close", 0.1), ("ops", "curve-first", 0.1), ("ops", "multi-curve", 0.3), ("ops", "moveto-to-current-point", 0.05), ("use", "draw-after-close", 0.1)],
+        min_class_fraction: vec![("ops", "curve-after-close", 0.1), ("ops", "curve-first", 0.1), ("ops", "multi-curve", 0.3), ("ops", "moveto-to-current-point", 0.05), ("ops", "curve-with-more-than-256-segments", 0.01), ("use", "draw-after-close", 0.1)],
         panic_is_violation: false,
     }
 }
